@@ -565,6 +565,8 @@ class Grid:
         """
 
         interp_axes = []
+        to = {}
+        via_center = []
         for axname, axis in self.axes.items():
             try:
                 position_array, _ = axis._get_position_name(array)
@@ -577,10 +579,24 @@ class Grid:
                 continue
             if position_like != position_array:
                 interp_axes.append(axname)
+                to[axname] = position_like
+                if "center" not in (position_array, position_like):
+                    via_center.append(axname)
+
+        if via_center:
+            # there is no direct shift between two cell face positions: go through the cell center
+            array = self.interp(
+                array,
+                via_center,
+                to="center",
+                fill_value=fill_value,
+                boundary=boundary,
+            )
 
         array = self.interp(
             array,
             interp_axes,
+            to=to,
             fill_value=fill_value,
             boundary=boundary,
         )
